@@ -345,7 +345,7 @@ func C06Scenarios(tier string) []*Scenario {
 	if tier == "thorough" {
 		depth = 3
 	}
-	var out []*Scenario
+	out := MapFuncScenarios()
 	n := 0
 	for _, form := range c06Forms {
 		for _, path := range nestPaths(depth) {
@@ -372,6 +372,78 @@ func C07Scenarios(tier string) []*Scenario {
 				n++
 				out = append(out, buildC06(fmt.Sprintf("%05d", n), form, path, wrap, "C07", "C07"))
 			}
+		}
+	}
+	return out
+}
+
+// ---- map|FUNC applied at exactly the configured field ----
+
+// buildMapFunc: S{A int; B int; N *S; I Inner{X int}} → T{A int; B int; X int; I InnerT{X int}} with `map <src> X | <fn>`.
+// The nested struct has a field X too: it must stay automatic.
+func buildMapFunc(id string, shape string, srcPath string, fnKind string) *Scenario {
+	sc := &Scenario{ID: "M" + id, PropGen: "C06", PropVal: "C06", Test: "Convert", Funcs: map[string]string{},
+		Desc: map[string]any{"class": fmt.Sprintf("mapfunc shape=%s path=%s fn=%s", shape, srcPath, fnKind)}}
+	conv := &model.Converter{OutPkg: "conv/generated", LitPkg: "conv"}
+	sc.Conv = conv
+	is := &space.Decl{Pkg: "in", Name: "I" + id, Under: space.St(f("X", tInt))}
+	it := &space.Decl{Pkg: "out", Name: "I" + id, Under: space.St(f("X", tInt))}
+	sd := &space.Decl{Pkg: "in", Name: "S" + id}
+	sd.Under = space.St(f("A", tInt), f("B", tInt), f("N", space.P(space.N(sd))), f("I", space.N(is)))
+	td := &space.Decl{Pkg: "out", Name: "T" + id, Under: space.St(f("A", tInt), f("B", tInt), f("X", tInt), f("I", space.N(it)))}
+	sc.Decls = []*space.Decl{sd, td, is, it}
+	sT, tT := space.N(sd), space.N(td)
+	fn := "Mf" + id
+	var fsrc *space.Ty
+	body := ""
+	switch fnKind {
+	case "int":
+		fsrc, body = tInt, "return s*10 + 7"
+	case "ptr-struct":
+		fsrc, body = space.P(sT), "if s == nil { return -1 }; return s.A*100 + 3"
+	case "struct":
+		fsrc, body = sT, "return s.A*1000 + s.B"
+	case "no-source":
+		fsrc, body = nil, "return 4242"
+	}
+	cust := &model.Custom{Name: fn, Dst: tInt, ArgsFmt: []string{}}
+	params := ""
+	if fsrc != nil {
+		cust.Src = fsrc
+		cust.ArgsFmt = []string{"src"}
+		params = "s " + fsrc.Go("conv")
+	}
+	sc.FuncsSrc = fmt.Sprintf("func %s(%s) int { %s }\n", fn, params, body)
+	sc.Funcs[fn] = "conv." + fn
+	line := "map " + srcPath + " X | " + fn
+	if srcPath == "" {
+		line = "map X | " + fn
+	}
+	src, dst := sT, tT
+	switch shape {
+	case "ptr-ptr":
+		src, dst = space.P(sT), space.P(tT)
+	case "ptr-val":
+		src = space.P(sT)
+		sc.ConvLines = append(sc.ConvLines, "useZeroValueOnPointerInconsistency")
+		conv.Set.UseZeroPtr = true
+	case "val-ptr":
+		dst = space.P(tT)
+	}
+	top := &model.Method{Name: "Convert", Src: src, Dst: dst, Set: conv.Set, Fields: map[string]*model.FieldCfg{"X": {Source: srcPath, Fn: cust}}, NFieldSettings: 1}
+	conv.Methods = []*model.Method{top}
+	sc.Methods = []*ScMethod{{Name: "Convert", Params: "source " + src.Go("conv"), Result: dst.Go("conv"), Lines: []string{line}, M: top}}
+	sc.Mode = "value,nomutate"
+	return sc
+}
+
+func MapFuncScenarios() []*Scenario {
+	var out []*Scenario
+	n := 70000
+	for _, shape := range []string{"val-val", "ptr-ptr", "ptr-val", "val-ptr"} {
+		for _, pf := range [][2]string{{"A", "int"}, {"B", "int"}, {"N", "ptr-struct"}, {".", "struct"}, {".", "ptr-struct"}, {"", "no-source"}, {"N.A", "int"}, {"N.N", "ptr-struct"}, {"I.X", "int"}, {"A", "struct"}} {
+			n++
+			out = append(out, buildMapFunc(fmt.Sprintf("%05d", n), shape, pf[0], pf[1]))
 		}
 	}
 	return out
